@@ -6,6 +6,7 @@ CFG = dict(
     lean_support=["SaramaVerif.GoSem", "SaramaVerif.Gen.C17"],
     # name of the model driver (svdrv_<cxx> is built from SaramaVerif/Driver/<Cxx>.lean); None = no line-protocol model
     model="C17",
+    overlay=["sim", "c17"],
     required_theorems=["Props.C17.hash_range", "Props.C17.hash_reference_eq_java", "Props.C17.hash_consistent", "Props.C17.hash_key_range", "Props.C17.hash_key_consistent",
                        "Props.C17.rr_run_range", "Props.C17.rr_cycle", "Props.C17.manual_identity",
                        "Props.C17.partition_message_spec", "Props.C17.failed_partitioning_sends_nothing",
@@ -25,7 +26,8 @@ CFG["manifest"] = dict(
          "and the routing decision table of partitionMessage (sent only to partitions[choice] of the offered list, otherwise a specific error and nothing sent). "
          "The arithmetic tail of hashPartitioner.Partition, roundRobinPartitioner.Partition and the checks of partitionMessage are re-translated "
          "from /repo on every run and proved equal to the model (bridge obligations); the constructors/options and the whole call are tied by "
-         "differential execution against the compiled model.",
+         "differential execution against the compiled model; end-to-end scenarios (real Client + AsyncProducer against the simulated cluster, leadership "
+         "changing between the client's start and a per-topic refresh) answer the same routing lines with the partition the producer reported.",
     note="Trusted: Lean kernel; translator tools/extract + GoSem.lean; harness/line protocol. Modelled not verified: hash.Hash32 and math/rand as parameters, "
          "the client's partition lists as parameters, breaker.Run as a transparent call.",
     technique="Lean 4 proof (omega/induction) + regenerated bridge obligations + differential correspondence",
